@@ -303,3 +303,30 @@ def _finite_guard(p: Path, e: Event, a: V) -> bool:
 
 def _hasattr_guard(p: Path, e: Event, recv: V, attr: V) -> bool:
     return False
+
+
+def draw_nonempty(v: V, p: Path, e: Event) -> Optional[bool]:
+    """Is the sequence a `random.choice` draws from provably non-empty at that point of the path?
+    True / False (provably empty) / None (nothing on the path establishes it)."""
+    if isinstance(v, Const):
+        try:
+            return len(v.value) > 0
+        except TypeError:
+            return None
+    if isinstance(v, (ListV, TupleV, SetV)) and v.concrete():
+        return len(v.items) > 0
+    if isinstance(v, StrV):
+        if any(isinstance(x, str) and x for x in v.pieces):
+            return True
+    if isinstance(v, Term) and v.op == "call" and v.args and v.args[0] == "builtins.chr":
+        return True                 # chr() is a one-character string
+    if _known_nonempty(v, p, e):
+        return True
+    vk = v.key()
+    for fk, t, b in p.facts[:e.nfacts]:
+        # `if not v: <replace / raise>` leaves `v` truthy on the fall-through path, whatever its kind
+        if fk == vk and b:
+            return True
+        if isinstance(t, Term) and t.op == "eq" and {a.key() for a in t.args if isinstance(a, V)} == {f"len({vk})", "0"}:
+            return not b
+    return None
